@@ -131,6 +131,12 @@ def vfield(v, k):
     at = set()
     for (o, ops) in v.atoms:
         if isinstance(o, str):
+            if o.startswith("Const("):
+                # constants have no parts: empty collections / unit yield nothing, named items stay
+                if o in ("Const(empty)", "Const(default)", "Const(())", "Const(error)"):
+                    continue
+                at.add((o, ops))
+                continue
             at.add((ext_origin(o, k), ops))
         elif o[0] in ("ref",):
             # field of a pointer value: keep pointer (auto-deref handled by callers)
@@ -823,7 +829,7 @@ class Interp:
             ret = self.invoke(st, frame, fv, args, site)
             handled = True
         elif callee is not None and callee.id not in self.policy.opaque and not t.get("unresolved") \
-                and callee.id not in self.policy.summarize:
+                and callee.id not in self.policy.summarize and callee.id not in self.sem.LOCAL_PRIMITIVES:
             if callee.kind == "closure":
                 # direct call of a closure body through Fn*::call*: args = (closure, (tuple))
                 cargs = [args[0]] + self.untuple(st, args[1:]) if args else []
@@ -837,6 +843,11 @@ class Interp:
                 self.policy.on_event(ev)
                 return []
             ret = with_tag(ret, "#call", V("Const(%s)" % callee.id))
+            handled = True
+        elif callee is not None and callee.id not in self.policy.opaque and \
+                self.sem.local_primitive(self, st, frame, callee.id, args) is not NotImplemented:
+            ret = with_tag(self.sem.local_primitive(self, st, frame, callee.id, args),
+                           "#call", V("Const(%s)" % callee.id))
             handled = True
         elif callee is not None and callee.id in self.policy.opaque:
             ret = with_tag(Val(frozenset([("Call(%s)" % short_fn(callee.id), NOOPS)])),
